@@ -149,13 +149,13 @@ def bitsSuffix (bits : Nat) : Bytes := if bits == 0 then [] else natToBytes bits
 
 /-- `Type().String()` -/
 def GoVal.typeString : GoVal → Bytes
-  | .str _ => b "string"
-  | .bool _ => b "bool"
-  | .int bits _ => b "int" ++ bitsSuffix bits
-  | .uint bits _ => b "uint" ++ bitsSuffix bits
-  | .float bits _ _ _ => b "float" ++ bitsSuffix bits
+  | .str _ => b! "string"
+  | .bool _ => b! "bool"
+  | .int bits _ => b! "int" ++ bitsSuffix bits
+  | .uint bits _ => b! "uint" ++ bitsSuffix bits
+  | .float bits _ _ _ => b! "float" ++ bitsSuffix bits
   | .ptr t _ => t
-  | .iface _ => b "interface {}"
+  | .iface _ => b! "interface {}"
   | .slice t _ _ _ => t
   | .array t _ _ => t
   | .map t _ _ _ => t
@@ -207,12 +207,12 @@ def GoVal.len : GoVal → Nat
 /-- `reflect.Value.String()` on a non-string value: `<T Value>` -/
 def GoVal.reflectString : GoVal → Bytes
   | .str s => s
-  | v => [60] ++ v.typeString ++ b " Value>"
+  | v => [60] ++ v.typeString ++ b! " Value>"
 
 /-- `ToStr(tv.Interface())` for scalars (`strconv` decimal / bool / shortest float) -/
 def GoVal.toStr : GoVal → Option Bytes
   | .str s => some s
-  | .bool v => some (if v then b "true" else b "false")
+  | .bool v => some (if v then b! "true" else b! "false")
   | .int _ z => some (intToBytes z)
   | .uint _ n => some (natToBytes n)
   | .float _ _ _ rOwn => some rOwn
